@@ -234,6 +234,56 @@ static int lim_seq() {
     }
     return 0;
 }
+// mode "joinseq": join_node<tuple<long,...>, queueing> with 2 or 3 ports and a scripted successor, one thread; after every operation the graph is
+// drained (wait_for_all) and the white-box state is dumped: result, ports_with_no_items, forwarder_busy, successor registered?, tuples delivered so far,
+// size of every port's buffer.  Case: nports (op a v)*  with op 1 i v = put v on port i | 2 / 3 = the successor accepts / rejects from now on |
+// 4 = the successor pulls (try_get) | 6 = the successor registers again.  At the end: -7 and every delivered tuple.   (model: JoinModel.run_join)
+template <class Tuple> struct TupleRecv : tbb::flow::receiver<Tuple> {
+    tbb::flow::graph& g; bool acc = true; bool registered = true; std::vector<Tuple> got;
+    explicit TupleRecv(tbb::flow::graph& g_) : g(g_) {}
+    tbb::detail::d2::graph_task* try_put_task(const Tuple& t) override {
+        if (acc) { got.push_back(t); return tbb::detail::d2::SUCCESSFULLY_ENQUEUED; }
+        return nullptr;
+    }
+    tbb::flow::graph& graph_reference() const override { return g; }
+    bool register_predecessor(typename tbb::flow::receiver<Tuple>::predecessor_type&) override { registered = false; return true; }   // the join hands the edge over when we reject
+    bool remove_predecessor(typename tbb::flow::receiver<Tuple>::predecessor_type&) override { return true; }
+};
+template <class Tuple, std::size_t... I> static void join_sizes(tbb::flow::join_node<Tuple, tbb::flow::queueing>& j, Out& o, std::index_sequence<I...>) {
+    long sz[] = { (long)(tbb::flow::input_port<I>(j).my_tail - tbb::flow::input_port<I>(j).my_head)... };
+    for (long x : sz) o.put(x);
+}
+template <class Tuple, std::size_t... I> static void join_put(tbb::flow::join_node<Tuple, tbb::flow::queueing>& j, int port, long v, std::index_sequence<I...>) {
+    bool dummy[] = { (port == (int)I ? tbb::flow::input_port<I>(j).try_put(v) : false)... }; (void)dummy;
+}
+template <class Tuple, std::size_t... I> static void put_tuple(const Tuple& t, Out& o, std::index_sequence<I...>) { long v[] = { (long)std::get<I>(t)... }; for (long x : v) o.put(x); }
+template <class Tuple> static void join_seq_case(std::vector<i128>& c, Out& o) {
+    constexpr std::size_t N = std::tuple_size<Tuple>::value; auto idx = std::make_index_sequence<N>();
+    tbb::flow::graph g; tbb::flow::join_node<Tuple, tbb::flow::queueing> j(g); TupleRecv<Tuple> rc(g);
+    tbb::flow::make_edge(j, rc);
+    for (size_t p = 1; p + 2 < c.size(); p += 3) {
+        int op = (int)c[p]; long a = (long)c[p + 1], v = (long)c[p + 2]; long r = 0;
+        if (op == 1) { if (a >= 0 && a < (long)N) { join_put(j, (int)a, v, idx); r = 1; } }
+        else if (op == 2) { rc.acc = true; r = 1; }
+        else if (op == 3) { rc.acc = false; r = 1; }
+        else if (op == 4) { Tuple t; if (j.try_get(t)) { rc.got.push_back(t); r = 1; } }
+        else if (op == 6) { if (!rc.registered) { tbb::flow::make_edge(j, rc); rc.registered = true; } r = 1; }
+        g.wait_for_all();
+        o.put(r); o.put((long)j.ports_with_no_items.load()); o.put(j.forwarder_busy ? 1 : 0); o.put(j.my_successors.empty() ? 0 : 1); o.put((long)rc.got.size());
+        join_sizes(j, o, idx);
+    }
+    o.put(-7);
+    for (auto& t : rc.got) put_tuple(t, o, idx);
+}
+static int join_seq() {
+    std::vector<i128> c; Out o; Watchdog wd(20.0);
+    while (read_case(c)) {
+        wd.arm(&o);
+        if (c[0] == 3) join_seq_case<std::tuple<long, long, long>>(c, o); else join_seq_case<std::tuple<long, long>>(c, o);
+        wd.disarm(); o.flush();
+    }
+    return 0;
+}
 static int mt_join(int P, unsigned seed, int n, int policy) {   // two ports fed by different threads: queueing -> i-th with i-th; reserving -> all-or-nothing; key_matching -> same key
     tbb::global_control gc(tbb::global_control::max_allowed_parallelism, P);
     graph g;
@@ -265,6 +315,7 @@ static int mt_join(int P, unsigned seed, int n, int policy) {   // two ports fed
 int main(int argc, char** argv) {
     std::string mode = argc > 1 ? argv[1] : "";
     if (mode == "limseq") return lim_seq();
+    if (mode == "joinseq") return join_seq();
     if (mode == "seq") {
         std::vector<i128> c; Out o; Watchdog wd(20.0);
         while (read_case(c)) {
